@@ -19,7 +19,12 @@ def exit_differential(ctx, n):
     rng = random.Random(ctx.seed + 2)
     pool = [None, 0, 1, 2, 3, 127, 254, 255, 256, -1, -2, -6, -9, -11, -15, -31, -34, -64, -65, -77, -128, -1000]
     cases = [[rng.choice(pool) if rng.random() < 0.7 else rng.randint(-300, 400) for _ in range(rng.randint(0, 6))] for _ in range(n)]
-    real = [U._format_exitcodes(c) for c in cases]
+    def call(c):
+        try:
+            return U._format_exitcodes(c)
+        except BaseException as e:  # noqa  (in the executor this call runs in the manager thread, while it builds the error: raising there kills it)
+            return f"<raises {type(e).__name__}: {e}>"
+    real = [call(c) for c in cases]
     names = sorted({(int(sg), sg.name) for sg in signal.Signals})
     # the property itself, with no model in between
     table = dict(names)
